@@ -9,7 +9,9 @@ cd "$REPO" || exit 2
 if [ -n "$(git status --porcelain --untracked-files=no)" ]; then echo "with_patch: /repo has local changes, refusing" >&2; exit 2; fi
 git apply --check "$patch" || { echo "with_patch: patch does not apply" >&2; exit 2; }
 git apply "$patch"
-trap 'cd "$REPO" && git checkout -- . && git clean -fdq -- nutype nutype_macros test_suite examples 2>/dev/null' EXIT
+# the checks rewrite evidence/ on every run: keep the clean-tree files and put them back afterwards
+ev_keep="$(mktemp -d)"; cp -a "$HOME_V/evidence/." "$ev_keep/" 2>/dev/null
+trap 'cd "$REPO" && git checkout -- . && git clean -fdq -- nutype nutype_macros test_suite examples 2>/dev/null; cp -a "$ev_keep/." "$HOME_V/evidence/" 2>/dev/null; rm -rf "$ev_keep"' EXIT
 for id in "$@"; do
   out="$(cd "$HOME_V" && VERIF_KEEP_EVIDENCE=1 ./check "$id" --tier "${TIER:-quick}" 2>&1)"; rc=$?
   echo "$id exit=$rc $(echo "$out" | grep -m1 -E '^(VIOLATION|HARNESS-ERROR)' | cut -c1-400)"
